@@ -195,6 +195,10 @@ theorem state_writes_ok : stateWritesOk state_writes = true := by decide
 theorem forward_keeps_no_memo : memoOfTable state_writes = none := by
   unfold memoOfTable; rw [state_writes_ok]; rfl
 
+/-- no function on `forward`'s path returns early (a memo hit, a "nothing to do" shortcut) apart from the modelled
+early return of `uniform_fill` -/
+theorem forward_exits_ok : exitsOk forward_exits = true := by decide
+
 /-- the table speaks about every function `forward` can reach inside the two modules -/
 theorem forward_reach_scanned :
     reachCovered state_scanned forward_reach = true ∧ forward_unresolved = [] ∧
